@@ -129,7 +129,8 @@ func (e *Explorer) Run() {
 	t0 := time.Now()
 	e.queue = [][]Dec{nil}
 	var wg sync.WaitGroup
-	var deadline time.Time
+	var deadline, firstViol time.Time
+	const violGrace = 90 * time.Second
 	if e.cfg.Budget > 0 {
 		deadline = t0.Add(e.cfg.Budget)
 	}
@@ -162,9 +163,18 @@ func (e *Explorer) Run() {
 				e.mu.Lock()
 				e.active--
 				over := (e.cfg.MaxPaths > 0 && e.Paths >= e.cfg.MaxPaths) || (!deadline.IsZero() && time.Now().After(deadline))
+				// a run that has found violations is failing whatever the rest of the search yields: it is given a
+				// grace period to collect further distinct signatures and is then cut short (some changes make every
+				// remaining query expensive)
+				if len(e.Violations) > 0 && firstViol.IsZero() {
+					firstViol = time.Now()
+				}
+				failing := !firstViol.IsZero() && time.Since(firstViol) > violGrace
 				e.mu.Unlock()
 				if over {
 					e.stop("budget")
+				} else if failing {
+					e.stop("violations found, rest of the search skipped")
 				}
 				e.cond.Broadcast()
 			}
